@@ -226,8 +226,15 @@ def run(tier, seed, rng_py):
     failures: list[Failure] = []
     n = 150 if tier == 'quick' else 2000
     maxrel, maxres, maxcontract = 0.0, 0.0, 0.0
+    nsched = 0
     for k in range(n):
         c = gen_case(rng, tier)
+        if c.get('sched'):
+            # the schedule stratum cycles through the method / interval combinations, so that what it detects does not depend on the seed
+            me, pd, ius, fus = [('eigen', False, 2, 2), ('inverse', c['prediv'], 2, 4), ('eigen', True, 1, 2), ('eigen', False, 2, 4),
+                                ('inverse', c['prediv'], 1, 4), ('eigen', True, 2, 4)][nsched % 6]
+            c.update(method=me, prediv=pd, inv_update_steps=ius, factor_update_steps=fus)
+            nsched += 1
         try:
             steps = run_impl(c)
         except Exception as e:  # noqa: BLE001
